@@ -22,3 +22,11 @@ theorem or_mul (a b k : Nat) (h : b < 2^k) : b ||| (a * 2^k) = a * 2^k + b := by
   rw [Nat.or_comm, mul_or _ _ _ h]
 
 end Bits
+
+/-- rewrite masks / shifts / disjoint ORs of `Nat` into `%`, `/`, `*`, `+` (side conditions by `omega`) -/
+macro "bitsimp" : tactic => `(tactic|
+  simp (disch := omega) only [Bits.and1, Bits.and3, Bits.and7, Bits.and15, Bits.and31, Bits.and63, Bits.and127,
+    Bits.and255, Bits.andFFFF, Bits.and31bit, Bits.and32bit,
+    Nat.shiftRight_eq_div_pow, Nat.shiftLeft_eq, Bits.mul_or, Bits.or_mul,
+    List.cons.injEq, and_true, true_and])
+
